@@ -654,9 +654,10 @@ class WorkTree:
             c.parents = list(merge_heads)
         else:
             try:
-                old_head = self._repo.refs[ref]
+                old_head: ObjectID | None = self._repo.refs[ref]
                 c.parents = [old_head, *merge_heads]
             except KeyError:
+                old_head = None
                 c.parents = list(merge_heads)
 
         # Handle message after parents are set
@@ -726,7 +727,11 @@ class WorkTree:
             self._repo.object_store.add_object(c)
         else:
             try:
-                old_head = self._repo.refs[ref]
+                # Swap against the value the parents were taken from above;
+                # reading the ref again here would let a commit made by
+                # someone else in between be silently dropped from history.
+                if old_head is None:
+                    raise KeyError(ref)
                 if should_sign:
                     from dulwich.signature import get_signature_vendor
 
